@@ -276,7 +276,7 @@ func c09Run(w *W) {
 		if !w.thorough() && (name == "D2" || name == "D3") {
 			return
 		}
-		if name == "D3" || name == "WN" {
+		if name == "D3" || name == "WN" || name == "WG" {
 			return
 		}
 		key := strings.Join(texts, "\x00")
